@@ -195,9 +195,13 @@ def generate(seed: int, run: int, tier: str) -> dict:
             ops.append({"op": "jump", "prefix": rng.choice(["SYM", "SYM", "FUN", "QTY"]), "to": _boundary(rng)})
         if style == "mixed" and rng.random() < 0.2:
             ops.append({"op": "create", "kind": rng.choice(["Symbol", "Function", "Quantity", "CoordinateSystem", "IndexedSymbol", "VectorSymbol", "Symbolic"]), "k": rng.choice([1, 3, 10, 50])})
+        if rng.random() < 0.12:
+            ops.append({"op": "docs_page", "m": m})  # documented before it is ever imported
         ops.append({"op": "import", "m": m})
         if rng.random() < 0.15:
             ops.append({"op": "call", "m": m})
+        if rng.random() < 0.08:
+            ops.append({"op": "docs_page", "m": m})
         if rng.random() < 0.1:
             ops.append({"op": "print", "m": m})
     if style == "deps_then_jump":
@@ -210,6 +214,10 @@ def generate(seed: int, run: int, tier: str) -> dict:
     if style == "create":
         for _ in range(rng.choice([1, 2, 4])):
             ops.append({"op": "create", "kind": rng.choice(["Symbol", "Function", "Quantity", "CoordinateSystem", "IndexedSymbol", "VectorSymbol", "Symbolic", "Symbolic"]), "k": rng.choice([1, 7, 9, 50, 99, 200])})
+    if rng.random() < 0.12:
+        # the documentation of the targets themselves (or of a sibling) is generated first
+        for t in targets:
+            ops.append({"op": "docs_page", "m": t if rng.random() < 0.6 else rng.choice(mods)})
     if style == "nearby_calls":
         # the same functions used shortly before with equal or nearly equal arguments (values that
         # print alike), possibly from a sibling module of the same package
@@ -352,6 +360,27 @@ def _create(kind: str, k: int) -> None:
             raise ValueError(kind)
 
 
+def _docs_page(modname: str) -> str:
+    """Generates one documentation page into an in-memory sink with the real generator."""
+    import symplyphysics.docs.build as build  # pylint: disable=import-outside-toplevel
+    from . import simfs  # pylint: disable=import-outside-toplevel
+    fs = simfs.SimFS("/simout/generated")
+    build.open = fs.open
+    build.os = simfs.OsProxy(fs)
+    build.Path = simfs.make_path_class(fs)
+    fs.begin(0, [])
+    rel = modname.split(".")
+    cwd = os.getcwd()
+    try:
+        os.chdir(core.REPO)
+        build._process_law(build.Path(*rel[:-1]), rel[-1] + ".py", "/simout/generated", True)  # pylint: disable=protected-access
+        return "ok" if fs.files else "no-page"
+    except Exception as e:  # pylint: disable=broad-except
+        return f"raised:{type(e).__name__}"
+    finally:
+        os.chdir(cwd)
+
+
 def child_run(job: dict) -> dict:
     import sys  # pylint: disable=import-outside-toplevel
     from sympy.core.cache import clear_cache  # pylint: disable=import-outside-toplevel
@@ -450,6 +479,13 @@ def child_run(job: dict) -> dict:
                 if not global_parameters.evaluate and "print" not in flag_events:
                     # whatever is imported or computed next would be built unevaluated
                     flag_events["print"] = f"global_parameters.evaluate is False right after printing the equations of {op['m']} ({raised} printer call(s) raised and were caught)"
+        elif kind == "docs_page":
+            # library use before: the documentation page of a module is generated first (the generator
+            # re-executes the module's source with evaluation switched off around documented members)
+            outcome = _docs_page(op["m"])
+            faults["docs_page_before"] = faults.get("docs_page_before", 0) + 1
+            if not global_parameters.evaluate and "docs_page" not in flag_events:
+                flag_events["docs_page"] = f"global_parameters.evaluate is False after generating the documentation page of {op['m']} ({outcome})"
         elif kind == "prepare_args":
             mod, _err = observe.try_import(op["m"])
             if mod is not None:
